@@ -7,10 +7,17 @@ open C14_model
 (*INCLUDE zio*)
 
 let n_of_int (i : int) : n = match z_of_int i with Z0 -> N0 | Zpos p -> Npos p | Zneg _ -> failwith "neg"
-let int_of_n (x : n) : int = match x with N0 -> 0 | Npos p -> int_of_z (Zpos p)
+let rec int_of_pos (p : positive) : int = match p with XH -> 1 | XO q -> 2 * int_of_pos q | XI q -> 2 * int_of_pos q + 1
+let int_of_n (x : n) : int = match x with N0 -> 0 | Npos p -> int_of_pos p
 let bytes_of_hex (h : string) : n list =
-  if h = "-" then [] else List.init (String.length h / 2) (fun i -> n_of_int (int_of_string ("0x" ^ String.sub h (2 * i) 2)))
-let hex_of_bytes (l : n list) : string = String.concat "" (List.map (fun b -> Printf.sprintf "%02x" (int_of_n b)) l)
+  if h = "-" then [] else begin
+    let tbl = Array.init 256 n_of_int in
+    let hv c = match c with '0'..'9' -> Char.code c - 48 | 'a'..'f' -> Char.code c - 87 | 'A'..'F' -> Char.code c - 55 | _ -> failwith "hex" in
+    List.init (String.length h / 2) (fun i -> tbl.(16 * hv h.[2 * i] + hv h.[2 * i + 1])) end
+let hex_of_bytes (l : n list) : string =
+  let b = Buffer.create 64 in
+  List.iter (fun x -> let v = int_of_n x in Buffer.add_char b "0123456789abcdef".[v lsr 4]; Buffer.add_char b "0123456789abcdef".[v land 15]) l;
+  Buffer.contents b
 let f32_add (a : int32) (b : int32) : int32 = Int32.bits_of_float (Int32.float_of_bits a +. Int32.float_of_bits b)
 let hex32 (x : int32) = Printf.sprintf "%lx" x
 let toks_str (l : n list list) = if l = [] then "-" else String.concat "," (List.map hex_of_bytes l)
